@@ -37,9 +37,9 @@ def scale(  # pylint: disable=dangerous-default-value  # always replaced by stat
 
     # Handle centering
     if "center" not in _state:
-        if isinstance(center, bool) and center:
+        if isinstance(center, (bool, numpy.bool_)) and center:
             _state["center"] = numpy.mean(data, axis=0)
-        elif not isinstance(center, bool):
+        elif not isinstance(center, (bool, numpy.bool_)):
             _state["center"] = numpy.array(center)
         else:
             _state["center"] = None
@@ -48,11 +48,11 @@ def scale(  # pylint: disable=dangerous-default-value  # always replaced by stat
 
     # Handle scaling
     if "scale" not in _state:
-        if isinstance(scale, bool) and scale:
+        if isinstance(scale, (bool, numpy.bool_)) and scale:
             _state["scale"] = numpy.sqrt(
                 numpy.sum(data**2, axis=0) / (data.shape[0] - ddof)
             )
-        elif not isinstance(scale, bool):
+        elif not isinstance(scale, (bool, numpy.bool_)):
             _state["scale"] = numpy.array(scale)
         else:
             _state["scale"] = None
